@@ -81,7 +81,8 @@ def build_window(win, noise, min_pulse_out=None):
     "ripple", "rseed", "flips": [...]}]} -> (list of floats, expected hex list,
     min pulse amplitude)."""
     n = win["n"]
-    buf = noise_samples(noise["shape"], noise["peak"], n, win["nseed"])
+    # per-window noise level ("pk", non-increasing over a run) or the run's level
+    buf = noise_samples(noise["shape"], win.get("pk", noise["peak"]), n, win["nseed"])
     expected = []
     minp = None
     for f in win["frames"]:
